@@ -143,7 +143,7 @@ def run(ctx):
         bad = None
         for line in (1, 2, 300, 32767, 32768, 40000, 65535):
             refs = {line + 1 + off for off in (lo - 2, lo - 1, lo, lo + 1, -2, -1, 0, 1, hi - 1, hi, hi + 1, hi + 2)}
-            # far pairs: distances that only "fit" if the 16-bit difference is allowed to wrap around
+            # far pairs: references across the 0xFFFF/0x0000 seam and half a ring away
             refs |= {1, 2, 15, 32767, 32768, 32769, 65520, 65535, (line + 1 + lo) % 65536, (line + 1 + hi) % 65536, (line + 32768) % 65536, (line + 32769) % 65536}
             for ref in sorted(r for r in refs if 1 <= r <= 65535):
                 off = ref - line - 1
@@ -167,10 +167,13 @@ def run(ctx):
                     bad = (line, ref, off, "undecidable: %s" % ex)
                     break
                 got = formula.label_variant(lab) == "Ok"
-                # the offset is the integer distance between the two statements: it must not be reduced modulo 2^16 first
-                want = lo <= off <= hi
+                # statement numbers live on the 16-bit ring (literal offsets are stored as line + 1 + v mod 2^16, eval numbers its statement
+                # pc - origin mod 2^16, and the VM's PC arithmetic wraps): the distance is the signed 16-bit difference, minus one
+                d = ((ref - line) % 65536)
+                d = d - 65536 if d >= 32768 else d
+                want = lo <= d - 1 <= hi
                 if got != want:
-                    bad = (line, ref, off, "guard %s, statement %s" % ("accepts" if got else "rejects", "accepts" if want else "rejects"))
+                    bad = (line, ref, d - 1, "guard %s, statement %s" % ("accepts" if got else "rejects", "accepts" if want else "rejects"))
                     break
             if bad:
                 break
